@@ -340,6 +340,20 @@ def install(w):
         f = ex.w.ufun("str_format", z3.StringSort(), ex.S.Py, z3.StringSort())
         return Z(f(ex.to_str(args[0]), ex.to_py(Tup(list(args[1:])))))
 
+    @b("is_dataclass_value")
+    def _is_dc_value(ex, args, kw, e, env):
+        return Z(ex.w.ufun("dataclasses_is_dataclass", ex.S.Py, z3.BoolSort())(ex.to_py(args[0])))
+
+    @b("has_fields_attr")
+    def _has_fields_attr(ex, args, kw, e, env):
+        return Z(ex.w.ufun("hasattr___fields", ex.S.Py, z3.BoolSort())(ex.to_py(args[0])))
+
+    @b("fields_attr")
+    def _fields_attr(ex, args, kw, e, env):
+        """The `_fields` of a named-tuple class as a list (TRUSTED library fact: a tuple of strings)."""
+        v = ex.w.ufun("attr___fields", ex.S.Py, ex.S.Py)(ex.to_py(args[0]))
+        return Z(ex.P.titems(v))
+
     @b("wf_exprs")
     def _wf_exprs(ex, args, kw, e, env):
         return Z(ex.w.wf.list_fn("expr")(ex.to_list(args[0])))
@@ -573,6 +587,10 @@ def install(w):
     @b("assoc")
     def _assoc(ex, args, kw, e, env):
         return Z(ex.S.assoc(ex.to_list(args[0]), ex.to_list(args[1]), ex.to_py(args[2])))
+
+    @b("drop")
+    def _drop(ex, args, kw, e, env):
+        return Z(ex.S.drop(ex.to_list(args[0]), ex.to_int(args[1])))
 
     @b("take")
     def _take(ex, args, kw, e, env):
@@ -1063,6 +1081,12 @@ def value_methods(ex, obj, name, args, kw, line):
                 raise Unsupported(f"str.encode({enc!r})")
             f = ex.w.ufun("utf8", z3.StringSort(), z3.StringSort())   # total and injective
             return Z(f(obj.t))
+    if isinstance(obj, Z) and obj.t.sort() == S.Py and name in ("keys", "values") and not args \
+            and ex.entails(P.is_PDict(obj.t)):
+        # the keys / values of a dictionary TERM, newest binding first (a key bound twice is met
+        # twice: only facts that do not depend on meeting each key once can be proved through it)
+        return Z(P.dkeys(obj.t) if name == "keys" else P.dvals(obj.t), fresh="shallow",
+                 origin=f"dict.{name}()")
     if isinstance(obj, Z) and obj.t.sort() == S.Py:
         # str methods on a Py known to be a str
         if name in ("lower", "strip", "startswith", "endswith", "format", "isidentifier",
